@@ -160,6 +160,40 @@ def _extent(m, fld):
     return 0
 
 
+def getter_table(ctx):
+    """COEmcyGetErr / COEmcySetErr address the same bit: for every error number b, with exactly bit b of the status bytes
+    set, the getter answers 1 for b and 0 for every other number (exhaustive over the configured range)."""
+    m = ctx.m
+    f = 'COEmcyGetErr'
+    if f not in m.funcs:
+        f = 'COEmcyGet'          # getter inlined into the API function
+    m.need(f)
+    N = const_eval_name(m, 'CO_EMCY_N')
+    nbytes = (N + 7) // 8
+    wrong = []
+    for b in range(N):
+        base = dict(('emcy->Err[%d]' % k, (1 << (b & 7)) if k == (b >> 3) else 0) for k in range(nbytes))
+        for e in range(N):
+            pe = PEval(m, f)
+            pe.record_sets = False
+            pe.store_filter = lambda k, fld: False
+            inputs = dict(base)
+            inputs.update({'emcy': 1, 'err': e, 'call:COEmcyCheck': e})
+            trs = pe.run(inputs)
+            got = set(t.ret for t in trs)
+            if got != set([1 if e == b else 0]):
+                wrong.append((b, e, sorted(got, key=str)))
+    site = '%s: %d x %d (active error, queried error) pairs' % (f, N, N)
+    if wrong:
+        b, e, got = wrong[0]
+        ctx.ob(P, 'RF1-emcy-getter', f, site, None)
+        ctx.find(P, 'RF1-emcy-getter', f, 'getter-bit', m.loc(f, m.funcs[f].line),
+                 'with only error %d active, the state of error %d is reported as %s (%d wrong pairs): getter and setter do not '
+                 'address the same bit' % (b, e, got, len(wrong)))
+    else:
+        ctx.ob(P, 'RF1-emcy-getter', f, site, 'reports 1 exactly for the active error')
+
+
 def const_eval_name(m, name):
     # value of an object-like macro / enumerator used as the loop bound of COEmcyReset
     g = m.cfg('COEmcyReset')
@@ -459,6 +493,7 @@ def hist_read(ctx):
 
 
 def run(ctx):
+    getter_table(ctx)
     register_step(ctx)
     hist_read(ctx)
     transitions(ctx)
